@@ -180,9 +180,9 @@ theorem list_truncate (d : MsgD) (m : Msg) (num n : Nat) (vs : Vals)
     unfold listOf Fields.listAt has
     simp only [step, Msg.fields, h]
     by_cases hn : (vs.takeN n).isNil = true
-    · simp only [hn, if_true, Msg.fields, Fields.get?_erase]
+    · simp only [hn, if_true, Fields.get?_erase]
       simp [Vals.toList, Vals.toList_eq_nil.mpr hn]
-    · simp only [hn, Bool.false_eq_true, if_false, Msg.fields, Fields.get?_set, if_true]
+    · simp only [hn, Bool.false_eq_true, if_false, Fields.get?_set, if_true]
       simp [Vals.toList_eq_nil, hn]
 
 /-! ### maps -/
@@ -295,7 +295,7 @@ theorem map_del (d : MsgD) (m : Msg) (num : Nat) (k : Val) (vs : Vals)
       by_cases hn : (mapErase vs k).isNil = true
       · simp only [hn, if_true, Fields.get?_erase, if_true]
         exact ((Vals.isNil_iff _).mp hn).symm
-      · simp only [hn, Bool.false_eq_true, if_false, Msg.fields, Fields.get?_set, if_true]
+      · simp only [hn, Bool.false_eq_true, if_false, Fields.get?_set, if_true]
     constructor
     · intro k' hk'
       unfold mapGet
